@@ -45,6 +45,7 @@ func checkC17(ctx *Ctx, r *Report) {
 	c17FourthRound(ctx, r)
 	c17MethodChangeLocated(ctx, r)
 	c17FifthRound(ctx, r)
+	c17SixthRound(ctx, r)
 	c16DismissalNeedsLostOptions(ctx, r)
 	c18LiteralsShareSlices(ctx, r)
 	// the copies veneers rely on
@@ -2348,4 +2349,147 @@ func c17FifthRound(ctx *Ctx, r *Report) {
 	})
 	r.Count("hunted clauses of the option actions (5th round)", n)
 	r.Floor("hunted clauses of the option actions (5th round)", 5)
+}
+
+// c17SixthRound — fourth hunt:
+//   - array_to_append / map_to_index / struct_fields_as_options decide on the type of the *argument*; what the argument
+//     is assigned to can be something else after disjunction_as_options (`value: string | [...string]`): each of them
+//     resolves the type at the end of the located assignment's path and leaves the option alone unless it is a list /
+//     a map / a struct;
+//   - struct_fields_as_arguments names its new arguments after the fields: it checks that no two arguments of the
+//     option it builds share a name;
+//   - merge_into and duplicate copy factories, which call options *by name*: the copies follow rename_options, and a
+//     call to an excluded option is an error.
+func c17SixthRound(ctx *Ctx, r *Report) {
+	n := 0
+	want := map[string]string{"ArrayToAppendAction": "IsArray", "MapToIndexAction": "IsMap", "StructFieldsAsOptionsAction": "IsStruct"}
+	seen := map[string]bool{}
+	forEachVeneerClosure(ctx, func(p *packages.Package, fd *ast.FuncDecl, fobj *types.Func, lit *ast.FuncLit) {
+		info := p.TypesInfo
+		if pred, ok := want[fd.Name.Name]; ok {
+			seen[fd.Name.Name] = true
+			checks := false
+			ast.Inspect(lit.Body, func(m ast.Node) bool {
+				is, ok := m.(*ast.IfStmt)
+				if !ok || !endsInExit(is.Body) {
+					return true
+				}
+				resolves, tests := false, false
+				ast.Inspect(is, func(k ast.Node) bool {
+					if c, ok := k.(*ast.CallExpr); ok {
+						if f := callee(info, c); f != nil {
+							if f.Name() == "ResolveToType" && len(c.Args) == 1 && strings.Contains(exprString(c.Args[0]), "Last().Type") {
+								resolves = true
+							}
+							if f.Name() == pred {
+								tests = true
+							}
+						}
+					}
+					return true
+				})
+				if resolves && tests && is.Body != nil && k17ReturnsOption(is.Body) {
+					checks = true
+				}
+				return true
+			})
+			n++
+			r.Check(checks, "effects/action-checks-target-type", ctx.FuncName(fobj)+" checks what the argument is assigned to", lit.Pos(), "the option is returned unchanged unless the end of the assignment's path resolves to the expected kind ("+pred+")",
+				ctx.FuncName(fobj)+" looks at the type of the argument only: after disjunction_as_options on `value: string | [...string]` the option arrayOfString assigns a list to a union, array_to_append turns it into `value.append(…)` — AttributeError: 'str' object has no attribute 'append' (Python), push on `string | string[]` (TypeScript)")
+		}
+		if fd.Name.Name == "StructFieldsAsArgumentsAction" {
+			seen[fd.Name.Name] = true
+			distinct := false
+			ast.Inspect(lit.Body, func(m ast.Node) bool {
+				rs, ok := m.(*ast.RangeStmt)
+				if !ok {
+					return true
+				}
+				if ff := fieldOf(info, rs.X); ff == nil || ff.Name() != "Args" {
+					return true
+				}
+				ast.Inspect(rs.Body, func(k ast.Node) bool {
+					is, ok := k.(*ast.IfStmt)
+					if !ok || is.Init == nil {
+						return true
+					}
+					if as, ok := is.Init.(*ast.AssignStmt); ok && len(as.Rhs) == 1 {
+						if ix, ok := ast.Unparen(as.Rhs[0]).(*ast.IndexExpr); ok {
+							if _, isMap := info.TypeOf(ix.X).Underlying().(*types.Map); isMap && strings.HasSuffix(exprString(ix.Index), ".Name") && k17ReturnsOption(is.Body) {
+								distinct = true
+							}
+						}
+					}
+					return true
+				})
+				return true
+			})
+			n++
+			r.Check(distinct, "effects/argument-names-distinct", ctx.FuncName(fobj)+" checks the names of the arguments it declares", lit.Pos(), "the arguments of the new option are looked up by name and the option left alone on a clash",
+				"struct_fields_as_arguments names the new arguments after the fields and appends the remaining arguments of the option: `Outer{inner: Inner{name, size}, name}` unfolded twice gives outer(name, size, name) — name redeclared in this block")
+		}
+	})
+	for name := range want {
+		if !seen[name] {
+			r.Undecided("anchor lost: option.%s", name)
+		}
+	}
+	// factories
+	bp := ctx.Pkg("internal/veneers/builder")
+	if bp == nil {
+		r.Undecided("anchor lost: internal/veneers/builder")
+	} else {
+		info := bp.TypesInfo
+		for _, f := range bp.Syntax {
+			for _, d := range f.Decls {
+				fd, ok := d.(*ast.FuncDecl)
+				if !ok || fd.Body == nil || (fd.Name.Name != "mergeBuilderInto" && fd.Name.Name != "Duplicate") {
+					continue
+				}
+				excl, ren, calls := false, false, false
+				ast.Inspect(fd.Body, func(m ast.Node) bool {
+					rs, ok := m.(*ast.RangeStmt)
+					if !ok {
+						return true
+					}
+					if ff := fieldOf(info, rs.X); ff == nil || ff.Name() != "OptionCalls" {
+						return true
+					}
+					calls = true
+					ast.Inspect(rs.Body, func(k ast.Node) bool {
+						if id, ok := k.(*ast.Ident); ok {
+							switch id.Name {
+							case "excludeOptions":
+								excl = true
+							case "renameOptions":
+								ren = true
+							}
+						}
+						return true
+					})
+					return true
+				})
+				n++
+				okk := calls && excl && (ren || fd.Name.Name == "Duplicate")
+				r.Check(okk, "effects/copied-factories-follow-options", "builder."+fd.Name.Name+" looks at the option calls of the factories it copies", fd.Pos(), "the calls are checked against exclude_options (and renamed after rename_options)",
+					"builder."+fd.Name.Name+" copies the factories of the source builder as they are: with `exclude_options: [hide]` and `rename_options: {title: targetTitle}` the copied factory still calls hide — builder.Hide undefined — and its call to title now reaches the destination's own title option")
+			}
+		}
+	}
+	r.Count("hunted clauses of the veneer actions (6th round)", n)
+	r.Floor("hunted clauses of the veneer actions (6th round)", 6)
+}
+
+// k17ReturnsOption: the block returns a list holding the option it was given (`return []ast.Option{option}`).
+func k17ReturnsOption(b *ast.BlockStmt) bool {
+	for _, st := range b.List {
+		if rs, ok := st.(*ast.ReturnStmt); ok && len(rs.Results) == 1 {
+			if cl, ok := ast.Unparen(rs.Results[0]).(*ast.CompositeLit); ok && len(cl.Elts) == 1 {
+				if id, ok := ast.Unparen(cl.Elts[0]).(*ast.Ident); ok && id.Name == "option" {
+					return true
+				}
+			}
+		}
+	}
+	return false
 }
